@@ -14,6 +14,9 @@ type Val struct {
 	Sort  string
 	Addr  *Addr // set for pointers to slice elements (never materialised as Ref terms)
 	Tuple []Val
+	FBase Term       // when the pointer is the address of a struct field: address of the struct,
+	FStruct types.Type //   the struct type
+	FIdx  int        //   and the field index
 	DynTyp types.Type // for interface values built by MakeInterface: the static type of the operand
 	Lazy  types.Type // contract name of a captured variable: the value is loaded from T when used
 	ConstLen int // for slices of a fresh fixed-size array: length+1
@@ -67,6 +70,7 @@ type hyp struct {
 	pos int
 	F   Term
 	q   *Quant
+	tag string
 }
 
 type idxAt struct {
@@ -107,8 +111,11 @@ type Unit struct {
 	globals  map[string]int
 	eventArgTyp map[string]types.Type
 	epoch    int
+	cmdTag   []string
+	curTag   string
 	hyps     []hyp
 	idxTerms []idxAt
+	elemComps map[string]bool
 	repoCallees map[string]bool // contracts of /repo functions and interfaces assumed at call sites
 }
 
@@ -118,7 +125,32 @@ func newUnit(p *Program, name string) *Unit {
 		implDone: map[string]bool{}, ordinals: map[string]int{}, eventArgSorts: map[string][]string{}, repoCallees: map[string]bool{}}
 }
 
-func (u *Unit) emit(cmd string) { u.cmds = append(u.cmds, cmd) }
+func (u *Unit) emit(cmd string) {
+	u.cmds = append(u.cmds, cmd)
+	u.cmdTag = append(u.cmdTag, u.curTag)
+}
+
+// propTags returns the property ids (Cxx) a clause label names; labels may list several, separated by commas.
+func propTags(label string) []string {
+	var out []string
+	for _, part := range strings.Split(label, ",") {
+		part = strings.TrimSpace(part)
+		if len(part) >= 3 && part[0] == 'C' && part[1] >= '0' && part[1] <= '9' && part[2] >= '0' && part[2] <= '9' {
+			out = append(out, part[:3])
+		}
+	}
+	return out
+}
+
+// tagged runs f with assertions tagged by the clause label: a hypothesis that belongs to other properties only
+// is left out of the queries of an obligation labelled with a property (fewer, smaller queries; dropping
+// hypotheses cannot make an invalid obligation provable).
+func (u *Unit) tagged(label string, f func()) {
+	old := u.curTag
+	u.curTag = strings.Join(propTags(label), ",")
+	f()
+	u.curTag = old
+}
 
 func (u *Unit) assume(t Term) {
 	if t != "true" {
@@ -140,7 +172,7 @@ func (u *Unit) assumeRec(t Term, rec *Rec) {
 			continue
 		}
 		if (len(q.Offs) > 0 || len(q.TVars) > 0) && strings.Contains(t, q.Text) {
-			u.hyps = append(u.hyps, hyp{len(u.cmds), t, q})
+			u.hyps = append(u.hyps, hyp{len(u.cmds), t, q, u.curTag})
 		}
 	}
 	for _, ix := range rec.Idx {
@@ -185,8 +217,6 @@ func (u *Unit) compSortOf(name string) string {
 	switch {
 	case strings.HasPrefix(name, "H_"):
 		s = "(Array Ref " + name[2:] + ")"
-	case strings.HasPrefix(name, "E_"):
-		s = "(Array Int (Array Int " + name[2:] + "))"
 	case name == "BS":
 		s = "(Array Int Str)"
 	case name == "alloc" || name == "clock" || strings.HasPrefix(name, "cnt_"):
@@ -251,18 +281,19 @@ func (u *Unit) entryComp(name string) Term {
 
 // closedFacts states that a heap component holds no reference to an object that is not yet allocated.
 func (u *Unit) closedFacts(name string, t Term, alloc Term) {
-	switch name {
-	case "H_Ref":
+	cs := u.compSortOf(name)
+	switch {
+	case cs == "(Array Ref Ref)":
 		u.assume("(forall ((r Ref)) (< (rootid (select " + t + " r)) " + alloc + "))")
-	case "H_Iface":
+	case cs == "(Array Ref Iface)":
 		u.assume("(forall ((r Ref)) (< (rootid (val (select " + t + " r))) " + alloc + "))")
-	case "H_Slice":
+	case cs == "(Array Ref Slice)":
 		u.assume("(forall ((r Ref)) (< (sbase (select " + t + " r)) " + alloc + "))")
-	case "E_Ref":
+	case cs == "(Array Int (Array Int Ref))":
 		u.assume("(forall ((b Int) (i Int)) (< (rootid (select (select " + t + " b) i)) " + alloc + "))")
-	case "E_Iface":
+	case cs == "(Array Int (Array Int Iface))":
 		u.assume("(forall ((b Int) (i Int)) (< (rootid (val (select (select " + t + " b) i))) " + alloc + "))")
-	case "E_Slice":
+	case cs == "(Array Int (Array Int Slice))":
 		u.assume("(forall ((b Int) (i Int)) (< (sbase (select (select " + t + " b) i)) " + alloc + "))")
 	}
 }
@@ -381,7 +412,7 @@ func (u *Unit) obligeRec(fn, kind, label, pos, src string, guard, goal Term, rec
 	o := &Obligation{Name: name, Func: fn, Kind: kind, Label: label, Pos: pos, Src: src, Prefix: len(u.cmds), Guard: guard, Goal: goal, unit: u,
 		Quantified: strings.Contains(goal, "(forall") || strings.Contains(goal, "(exists"), rec: rec}
 	u.Obls = append(u.Obls, o)
-	u.assumeRec(implies(guard, goal), rec)
+	u.tagged(label, func() { u.assumeRec(implies(guard, goal), rec) })
 	return o
 }
 
@@ -408,7 +439,19 @@ func (o *Obligation) Query(models bool) string {
 	}
 	b.WriteString(u.sorts.header(u.strSMT, nil))
 	b.WriteString(u.litHeader())
-	for _, c := range u.cmds[:o.Prefix] {
+	mine := propTags(o.Label)
+	for i, c := range u.cmds[:o.Prefix] {
+		if tag := u.cmdTag[i]; tag != "" && len(mine) > 0 && strings.HasPrefix(c, "(assert") {
+			keep := false
+			for _, m := range mine {
+				if strings.Contains(tag, m) {
+					keep = true
+				}
+			}
+			if !keep {
+				continue
+			}
+		}
 		b.WriteString(c)
 		b.WriteByte('\n')
 	}
@@ -562,6 +605,17 @@ func (o *Obligation) instantiate() (Term, []string) {
 	for _, h := range u.hyps {
 		if h.pos > o.Prefix {
 			continue
+		}
+		if mine := propTags(o.Label); h.tag != "" && len(mine) > 0 {
+			keep := false
+			for _, m := range mine {
+				if strings.Contains(h.tag, m) {
+					keep = true
+				}
+			}
+			if !keep {
+				continue
+			}
 		}
 		if len(h.q.TVars) > 0 {
 			// typed quantifier: instantiate with the goal's skolem constants of the same source name
